@@ -386,6 +386,16 @@ def run(c):
         else:
             c.cov["traces_validated_against_impl"] += 1
         c.cov["maintenance_records"] = len(mrecs)
+        kinds = {}
+        for x in mrecs:
+            k = x["e"] + (":" + x["op"] if "op" in x else "")
+            kinds[k] = kinds.get(k, 0) + 1
+        c.cov["maintenance_kinds"] = kinds
+        # every kind of record that carries a clause must be present (vacuity guard)
+        missing = [k for k in ("m:get", "m:free", "m:clear_after", "m:clear", "m:reserve", "m:clear_fast", "m:active", "q:add",
+                               "q:add_range", "q:get", "q:try_get", "ovf", "stress") if k not in kinds]
+        if missing:
+            raise vlib.Inconclusive("maintenance driver produced no record of kind %s" % missing)
 
     # ---- 4. self-test ---------------------------------------------------------------
     s = SCENARIOS[3]
@@ -414,8 +424,9 @@ def run(c):
         "sequentially consistent atomics (the code uses std::atomic defaults); weak-memory reorderings are not explored",
         "one grant = the atomic operation plus the thread-local code up to the next AtomicValue operation; "
         "AtomicValue::max is granted as load+compare-and-swap in one step (add-only hooks cannot separate them)",
-        "ThreadSafeVector::clear/clear_after/get_free_elements are maintenance calls made while no worker runs and are not "
-        "part of the concurrent scenarios"]
+        "ThreadSafeVector::clear/clear_fast/clear_after/get_free_elements/get_active_elements, TaskQueue::add_tasks and "
+        "MemorySpace::add_photons (called under the subgrid lock) are exercised sequentially (Trace_PoolMaintenance), not in "
+        "the concurrent scenarios"]
 
 
 def build():
